@@ -7,9 +7,10 @@
    identified with its key (the map holds exactly one node per key and
    node.id = key).  The iteration order of [range rule.nodes] is an INPUT of
    the model: [ord], a list of keys (theorems quantify over every permutation
-   of the key list; the same order is used for the resolution loop and for
-   detectFirstCycle, the former only determines the order of diagnostics). *)
-From AL Require Import Base.Str Base.AList Graph.Dfs.
+   of the key list; the resolution loop ranges over the map directly, which
+   only determines the order of its diagnostics; detectFirstCycle sorts the
+   nodes by position first, see [sort_nodes]). *)
+From AL Require Import Base.Str Base.AList Out.StableSort Graph.Dfs.
 
 Definition pos := (N * N)%type.
 
@@ -92,8 +93,18 @@ Definition entries (m : nodes) (ord : list string) : list (string * node) :=
 
 Definition needs_fuel (m : nodes) : nat := S (length m).
 
+(* detectFirstCycle (as repaired by the determinism fix): the nodes are
+   collected from the map in iteration order [ord] and sorted with
+       sort.Slice(sorted, func(i, j) bool { return sorted[i].pos.IsBefore(sorted[j].pos) })
+   before the search starts.  sort.Slice is not stable; the nodes of one
+   workflow are distinct YAML keys and have pairwise distinct positions, and
+   then every correct sort produces the same list (NeedsProofs.v,
+   [sort_nodes_det]); the model uses the insertion sort of Out/StableSort.v. *)
+Definition sort_nodes (m : nodes) (ord : list string) : list string :=
+  ssort (pos_of m) pos_leb ord.
+
 Definition detect_needs (m : nodes) (ord : list string) : res (option (string * list string)) :=
-  detect String.eqb (succ_of m) (before_of m) (needs_fuel m) ord.
+  detect String.eqb (succ_of m) (before_of m) (needs_fuel m) (sort_nodes m ord).
 
 (* VisitWorkflowPost *)
 Definition workflow_post (m : nodes) (ord : list string) : res (list diag) :=
